@@ -964,6 +964,55 @@ static void cmd_validate (int argc, char **argv)
   free (buf);
 }
 
+/* SIGWALK <sig> : walk a VALID signature with the public DBusSignatureIter API and rebuild it from what the iterator
+ * says (current type, recursion, element type, next); "parts" are dbus_signature_iter_get_signature() at every top-level
+ * position.  bad counts disagreements between the API's own answers (element type vs. first recursed type). */
+static int sigwalk_bad;
+static void sigwalk (DBusSignatureIter *it, OutBuf *o)
+{
+  do
+    {
+      int t = dbus_signature_iter_get_current_type (it);
+      if (t == DBUS_TYPE_INVALID) break;
+      if (t == DBUS_TYPE_ARRAY)
+        {
+          DBusSignatureIter sub; int et = dbus_signature_iter_get_element_type (it);
+          dbus_signature_iter_recurse (it, &sub);
+          if (dbus_signature_iter_get_current_type (&sub) != et) sigwalk_bad++;
+          ob_putc (o, 'a');
+          /* the element is ONE complete type: the sub-iterator must not offer a second one */
+          { OutBuf e = { 0 }; char *one = dbus_signature_iter_get_signature (&sub); sigwalk (&sub, &e);
+            if (!one || !e.s || strcmp (one, e.s) != 0) sigwalk_bad++;
+            if (e.s) ob_puts (o, e.s); free (e.s); dbus_free (one); }
+        }
+      else if (t == DBUS_TYPE_STRUCT || t == DBUS_TYPE_DICT_ENTRY)
+        {
+          DBusSignatureIter sub;
+          dbus_signature_iter_recurse (it, &sub);
+          ob_putc (o, t == DBUS_TYPE_STRUCT ? '(' : '{');
+          sigwalk (&sub, o);
+          ob_putc (o, t == DBUS_TYPE_STRUCT ? ')' : '}');
+        }
+      else ob_putc (o, (char) t);
+    }
+  while (dbus_signature_iter_next (it));
+}
+
+static void cmd_sigwalk (int argc, char **argv)
+{
+  DBusSignatureIter it; OutBuf o = { 0 };
+  if (argc < 2) { ob_puts (&out, "ERR badargs"); return; }
+  if (!dbus_signature_validate (argv[1], NULL)) { ob_puts (&out, "ERR invalid"); return; }
+  sigwalk_bad = 0;
+  dbus_signature_iter_init (&it, argv[1]);
+  sigwalk (&it, &o);
+  ob_printf (&out, "OK recon=%s bad=%d parts=", o.s ? o.s : "", sigwalk_bad);
+  free (o.s);
+  dbus_signature_iter_init (&it, argv[1]);
+  if (argv[1][0])
+    do { char *p = dbus_signature_iter_get_signature (&it); ob_printf (&out, "%s,", p ? p : "?"); dbus_free (p); } while (dbus_signature_iter_next (&it));
+}
+
 /* VALENUM <kind> <alphabet-hex> <maxlen> <prefix-hex|->
  * enumerates prefix + every string of length 0..(maxlen-len(prefix)) over the alphabet,
  * shorter first, then lexicographic in alphabet order.  Returns one hex digit
@@ -1698,6 +1747,7 @@ int main (int argc, char **argv)
       else if (!strcmp (args[0], "EDIT")) cmd_edit (n, args);
       else if (!strcmp (args[0], "EDITB")) cmd_editb (n, args);
       else if (!strcmp (args[0], "VALIDATE")) cmd_validate (n, args);
+      else if (!strcmp (args[0], "SIGWALK")) cmd_sigwalk (n, args);
       else if (!strcmp (args[0], "OOMEDIT")) cmd_oomedit (n, args);
       else if (!strcmp (args[0], "OOMCOPY")) cmd_oomcopy (n, args);
       else if (!strcmp (args[0], "OOMBUILD")) cmd_oombuild (n, args);
